@@ -707,6 +707,18 @@ func (m *machine) quiesce() {
 // observe is the hook observer (never blocks).
 func (m *machine) observe(point string, arg interface{}) {
 	switch point {
+	case "qlistener.msgDone":
+		// the query listener has passed the query request on: it is submitted now
+		msg := arg.(*nats.Msg)
+		id, err := strconv.Atoi(strings.TrimPrefix(msg.Reply, "_INBOX.q"))
+		if err != nil {
+			return
+		}
+		m.mu.Lock()
+		if id >= 0 && id < len(m.subs) {
+			m.subs[id].EndStep = m.ctl.Step()
+		}
+		m.mu.Unlock()
 	case "listener.msgDone":
 		msg := arg.(*nats.Msg)
 		id, err := strconv.Atoi(strings.TrimPrefix(msg.Reply, "_INBOX.r"))
@@ -804,9 +816,11 @@ func run(c Case) *Outcome {
 func (m *machine) checkOrder() {
 	byGroup := map[string][]*Sub{}
 	for _, sb := range m.subs {
-		if sb.Parallel || len(sb.Starts) != 1 || sb.Kind == "qnil" || sb.Kind == "qreq" {
+		if sb.Parallel || len(sb.Starts) != 1 || sb.Kind == "qnil" {
 			continue
 		}
+		// (a query request is submitted once the query listener has passed it on: EndStep is
+		// set by the qlistener.msgDone note, 0 = unknown, and then it orders nothing after it)
 		k := strconv.Itoa(sb.Cycle) + "/" + sb.Group
 		byGroup[k] = append(byGroup[k], sb)
 	}
